@@ -962,12 +962,26 @@ def server_trace(binary, tier, tag):
     bindir = build_repo_bins(("adf-bdd-server",), extra=("--config", "profile.dev.package.argon2.opt-level=3"))
     out = os.path.join(WORK, "server_%s.ndjson" % tag)
     os.makedirs(WORK, exist_ok=True)
-    lock = open(os.path.join(VERIF, ".server.lock"), "w")
-    fcntl.flock(lock, fcntl.LOCK_EX)          # the server binds 0.0.0.0:8080 unconditionally
+    args = ["server", "--tier", tier, "--out", out, "--stub", os.path.join(os.path.dirname(binary), "mongostub"),
+            "--server", os.path.join(bindir, "adf-bdd-server"), "--work", WORK]
+    # the server binds 0.0.0.0:8080 unconditionally: give the session a private network namespace (loopback only) when the
+    # kernel allows it, so that nothing else on the machine can hold or disturb the ports; otherwise serialise on a lock
+    try:
+        private = subprocess.run(["unshare", "-n", "sh", "-c", "ip link set lo up"], stdout=subprocess.DEVNULL, stderr=subprocess.DEVNULL,
+                                 timeout=20).returncode == 0
+    except Exception:
+        private = False
+    if private:
+        try:
+            run_harness("unshare", ["-n", "sh", "-c", 'ip link set lo up && exec "$0" "$@"', binary] + args, timeout=7200)
+        except ToolError as e:
+            raise ToolError("web service session failed (the server did not start?): %s" % e)
+        return out
+    lock = open("/tmp/.adf-obdd-verif-server.lock", "w")     # machine-wide (created on demand): any copy of /verif competes for the same ports
+    fcntl.flock(lock, fcntl.LOCK_EX)
     try:
         try:
-            run_harness(binary, ["server", "--tier", tier, "--out", out, "--stub", os.path.join(os.path.dirname(binary), "mongostub"),
-                                 "--server", os.path.join(bindir, "adf-bdd-server"), "--work", WORK], timeout=7200)
+            run_harness(binary, args, timeout=7200)
         except ToolError as e:
             raise ToolError("web service session failed (port 8080 / 27117 busy, or the server did not start): %s" % e)
     finally:
@@ -1009,6 +1023,8 @@ def server_collect(prop, res, tr):
             sig = {"race": "rename-window", "predicate": "foreign-problem-in-response"}
         elif racetag == "stale-task-write" and what in ("stored-models-differ-from-definition-for-code", "graph-not-faithful"):
             sig = {"race": "stale-task-write", "predicate": "stored-result-of-other-code"}
+        elif racetag == "stale-session" and what in ("foreign-problem-in-response", "foreign-document-deleted-or-reowned"):
+            sig = {"race": "stale-session", "predicate": "foreign-access-through-stale-cookie"}
         kf = known_match(prop, sig) if sig else None
         if kf:
             res.known(kf, "replayed on the binary with the stub as scheduler: %s (record %s)" % (what, rec["id"]))
@@ -1093,11 +1109,14 @@ def check_c17(prop, tier, replay, selftest):
         r2 = tlc_mc("Server", "Server_c17_strict.cfg", workers=8, timeout=600)
         print("SELFTEST C17 model: dropping the owner filter from get %s an unexplained foreign read; strict isolation %s the rename window" %
               ("produces" if r1["violation"] and "NoUnexplainedRead" in r1["violation"] else "DOES NOT produce", "rediscovers" if r2["violation"] else "MISSES"))
-        if not (r1["violation"] and r2["violation"]):
+        r3 = tlc_mc("Server", "Server_c17_dev_strict.cfg", workers=8, timeout=600)
+        print("SELFTEST C17 model: with a second device, a session that outlived its account %s somebody else's problems (F12)" %
+              ("reaches" if r3["violation"] and "NoStaleSessionAccess" in r3["violation"] else "DOES NOT reach"))
+        if not (r1["violation"] and r2["violation"] and r3["violation"]):
             return 2
     def corrupt(rec):
         if rec.get("kind") != "http" or rec.get("op") != "get" or rec.get("status") != 200 or rec.get("p") == 0:
             return None
         rec["p"] = rec["p"] % 3 + 1          # the same answer, handed to somebody else
         return rec
-    return _server_check(prop, tier, selftest, ["Server_c17.cfg"] + (["Server_c17_big.cfg"] if tier == "thorough" else []), corrupt)
+    return _server_check(prop, tier, selftest, ["Server_c17.cfg", "Server_c17_dev.cfg"] + (["Server_c17_big.cfg", "Server_c17_dev_big.cfg"] if tier == "thorough" else []), corrupt)
